@@ -357,7 +357,7 @@ CopyAbort(ev) ==
     ELSE emit' = ev /\ h' = [Adv(h) EXCEPT !.copy = FALSE] /\ UNCHANGED <<hq, skip>>
 
 HCopyRead ==
-    /\ Running /\ Op.op = "copyread" /\ h.copy /\ inq # <<>>
+    /\ Running /\ Op.op = "copyread" /\ h.copy /\ inq # <<>> /\ Head1.t # "Huge"
     /\ Consume
     /\ LET m == Head1 IN
        IF m.t = "d" THEN emit' = <<CopyCb("nil", m.dig)>> /\ h' = Adv(h) /\ UNCHANGED <<hq, skip>>
@@ -367,6 +367,15 @@ HCopyRead ==
             \* read itself reports nothing to the client - the abort is reported
             \* once, when the statement function returns the error
             CopyAbort(<<CopyCb("err", "")>>)
+    /\ UNCHANGED <<cfg, phase, ssl, mwi, cparams, eof, faulted, stmts, portals>>
+
+\* E7 inside COPY: a message declaring a gigantic length.  Its body is
+\* discarded as it arrives (never buffered); the client's stream ends long
+\* before 2 GB, and the read then fails.  The declared body is never
+\* interpreted as messages.
+HCopyReadHuge ==
+    /\ Running /\ Op.op = "copyread" /\ h.copy /\ inq # <<>> /\ Head1.t = "Huge" /\ eof
+    /\ inq' = <<>> /\ CopyAbort(<<CopyCb("err", "")>>)
     /\ UNCHANGED <<cfg, phase, ssl, mwi, cparams, eof, faulted, stmts, portals>>
 
 \* the client's side ends inside COPY: the read ends the stream or fails
@@ -600,7 +609,7 @@ Preamble == DoStartup \/ DoSSLRequest \/ DoStuffedDrop \/ TLSAbort \/ DoCancel \
             \/ DoPassword \/ DoNotPassword
             \/ WriteServerParams \/ Middleware \/ FirstReady
 
-Handler == HGate \/ HRow \/ HComplete \/ HEmpty \/ HCopyIn \/ HCopyReadNoop \/ HCopyRead \/ HCopyReadEOF \/ HReturn
+Handler == HGate \/ HRow \/ HComplete \/ HEmpty \/ HCopyIn \/ HCopyReadNoop \/ HCopyRead \/ HCopyReadHuge \/ HCopyReadEOF \/ HReturn
 
 Command == DoDiscard \/ DoQuery \/ StartNext \/ DoParse \/ DoBind \/ DoDescribe \/ DoExecute
            \/ DoClose \/ DoFlush \/ DoSync \/ DoStrayCopy \/ DoTerminate
